@@ -98,6 +98,35 @@ CHECKS = {
         design="§4 C07",
         technique="Lean 4 proof + model/implementation correspondence with spies",
     ),
+    "C08": dict(
+        text="Lean 4 theorems on the index algebra: candidates=None and candidates=<unlabeled indices> produce the same mapping for every labeling "
+        "(none_eq_idx_unlabeled, via np.unique being the identity on strictly increasing lists) and hence literally the same Skeleton-A computation; "
+        "feature-row utilities are the index-mode utilities gathered at the mapped positions (rows_eq_idx_gather); a unique best candidate is selected under "
+        "every positive noise (randArgmax_unique); for pointwise candidate utilities restriction and row permutation act as stated (pointwise_restrict, "
+        "pointwise_permute). Tie: the real _validate_data + _transform_candidates vs the model on random index lists; paired real queries under the three "
+        "addressings, candidate subsets and row permutations for every strategy (lists of sample-wise scorers in the evidence assumptions). That a given "
+        "strategy's numeric score is pointwise is validated on samples, not proved.",
+        design="§4 C08",
+        technique="Lean 4 proof (index algebra) + paired-run correspondence on the implementation",
+    ),
+    "C19": dict(
+        text="Lean 4 theorems (42): refinement of IndexClassifierWrapper to training lists of (index,label,weight) triples (abs_fit, abs_partialFit), invariants "
+        "(enforceUnique_nodup, base_unchanged_without_setBase, partialFit_useBase_independent_of_cur, atomicity of fit), clf_is_replay for every fitFn/pfitFn, "
+        "flag setting and call sequence (native path), clf_is_fresh_fit_partial on clean runs with the counterexample for the recorded non-atomic partial_fit "
+        "finding, speedup_never_changes_prediction over whole histories on the repaired code. Tie: random and exhaustive op sequences on the real wrapper around a "
+        "recording spy classifier, ParzenWindowClassifier (speed-up on/off in lock-step) and SklearnClassifier(GaussianNB); state compared after every call; "
+        "predictions compared with a fresh clone trained on the implied multiset.",
+        design="§4 C19",
+        technique="Lean 4 proof (refinement + induction over op sequences) + state-level correspondence",
+    ),
+    "C17": dict(
+        text="Lean 4 theorems: voteVectors_eq_count (V[i][c] = sum_j w[i][j]*[y[i][j]=c] for all shapes, missing and NaN-weight patterns, any semiring), "
+        "majorityVote_max (a class of maximal vote; sentinel exactly for rows without a label; reuses C18), confusion_counts (raw counts for normalize=None, "
+        "on the repaired code), confusion_normalised_{true,pred,all}, confusion_rejects. Tie: random label/weight matrices under several encodings, all four "
+        "normalisation modes, captured tie-breaking noise; bit-exact comparison with the model and the property oracle on every real output.",
+        design="§4 C17",
+        technique="Lean 4 proof + model/implementation correspondence",
+    ),
 }
 
 NOT_YET = "check not built yet in this round (design in DESIGN.md §4); no claim is made"
